@@ -492,9 +492,17 @@ def corpus_cases():
 def run(ctx):
     for d in corpus_cases() + gen_cases(ctx):
         run_case(ctx, d)
+    from props import c18_extra
+    for d in c18_extra.gen_cases(ctx.rng, ctx.tier == "thorough", ctx.budget_scale):
+        c18_extra.run_case(ctx, d)
 
 
 def replay(ctx, r):
+    _d = r["case"] if "case" in r else r["first_disagreement"][0]
+    if isinstance(_d, dict) and _d.get("family") == "mixkernel":
+        from props import c18_extra
+        c18_extra.run_case(ctx, _d)
+        return
     c = r["case"] if "case" in r else r["first_disagreement"][0]
     c = {k: v for k, v in c.items() if k != "bs"}
     run_case(ctx, c)
